@@ -126,6 +126,16 @@ class ExprMixin(object):
             setattr(self, name, value)
 
 
+def _operandrepr(operand):
+    # unary expressions and negative numbers bind looser than some binary operators
+    # (not < everything, unary minus < **), so they are parenthesised when nested
+    if isinstance(operand, UniExpr):
+        return "(%r)" % (operand,)
+    if isinstance(operand, (int, float)) and not isinstance(operand, bool) and (operand < 0 or str(operand).startswith("-")):
+        return "(%r)" % (operand,)
+    return repr(operand)
+
+
 class UniExpr(ExprMixin):
 
     def __init__(self, op, operand):
@@ -133,7 +143,7 @@ class UniExpr(ExprMixin):
         self.operand = operand
 
     def __repr__(self):
-        return "%s %r" % (opnames[self.op], self.operand)
+        return "%s %s" % (opnames[self.op], _operandrepr(self.operand))
 
     def __str__(self):
         return "%s %s" % (opnames[self.op], self.operand)
@@ -151,7 +161,7 @@ class BinExpr(ExprMixin):
         self.rhs = rhs
 
     def __repr__(self):
-        return "(%r %s %r)" % (self.lhs, opnames[self.op], self.rhs)
+        return "(%s %s %s)" % (_operandrepr(self.lhs), opnames[self.op], _operandrepr(self.rhs))
 
     def __str__(self):
         return "(%s %s %s)" % (self.lhs, opnames[self.op], self.rhs)
